@@ -11,6 +11,8 @@ import traceback
 
 VERIF = os.path.dirname(os.path.dirname(os.path.abspath(__file__)))
 REPO = os.environ.get("HEXITAL_REPO", "/repo")
+if hasattr(sys, "set_int_max_str_digits"):
+    sys.set_int_max_str_digits(0)      # model values may be rationals with thousands of digits
 
 
 def jsonable(x):
